@@ -484,8 +484,18 @@ class Body:
     def return_blocks(self):
         return [i for i in range(self.n) if self.term(i)["k"] == "return"]
 
+    def live_blocks(self):
+        """Blocks reachable from the entry (normal and unwind edges): dead blocks — e.g. the arms of a match on a
+        constant that the program view pruned — are not part of the function."""
+        if getattr(self, "_live", None) is None:
+            self._live = self.reachable(0, (), True)
+        return self._live
+
     def calls(self):
+        live = self.live_blocks()
         for i, b in enumerate(self.blocks):
+            if i not in live:
+                continue
             t = b.get("t")
             if t and t["k"] in ("call", "tailcall"):
                 yield CallSite(self, i, t)
@@ -494,7 +504,10 @@ class Body:
         return [c for c in self.calls() if c.is_(*suffixes) and (foreign or not c.foreign())]
 
     def stmts(self):
+        live = self.live_blocks()
         for i, b in enumerate(self.blocks):
+            if i not in live:
+                continue
             for k, s in enumerate(b["s"]):
                 yield i, k, s
 
@@ -1590,7 +1603,46 @@ class InlinedFn(Fn):
             for _round in range(3):
                 if not self._resolve_closure_calls():
                     break
+            self._prune_constant_switches()
         return self._body
+
+    def _prune_constant_switches(self):
+        """A `match` on a value that is a compile-time constant after splicing (a helper dispatching on the kind it is
+        called with) keeps only the arm that is taken."""
+        b = self._body
+        sy = Sym(self)
+        new_blocks = None
+        for i, blk in enumerate(b.blocks):
+            t = blk.get("t") or {}
+            if t.get("k") != "switch" or i not in b.live_blocks():
+                continue
+            try:
+                d = strip_sym(sy.operand(t["discr"]))
+            except RecursionError:
+                continue
+            if d and d[0] == "discr":
+                d = strip_sym(d[1])
+            tgt = None
+            if isinstance(d, tuple) and d and d[0] == "agg" and d[2] is not None and t.get("enum"):
+                d = ("const", "variant", d[2])  # a variant built right here (payload irrelevant for the discriminant)
+            if isinstance(d, tuple) and d[:2] == ("const", "variant"):
+                hit = [a["bb"] for a in t["arms"] if a.get("variant") == d[2]]
+                if hit:
+                    tgt = hit[0]
+                elif t.get("all_variants") and d[2] in t["all_variants"]:
+                    tgt = t["otherwise"]
+            elif isinstance(d, tuple) and d[:2] == ("const", "bool") and t.get("dty") == "bool":
+                v = 1 if d[2] else 0
+                hit = [a["bb"] for a in t["arms"] if a["v"] == v]
+                tgt = hit[0] if hit else t["otherwise"]
+            if tgt is not None:
+                if new_blocks is None:
+                    new_blocks = list(b.blocks)
+                new_blocks[i] = dict(blk, t={"k": "goto", "target": tgt, "ln": t.get("ln"), "pruned_switch": True})
+        if new_blocks is not None:
+            mir = dict(self.j["mir"], blocks=new_blocks)
+            self.j["mir"] = mir
+            self._body = Body(self, mir)
 
     def region(self):
         self.body  # resolving closure calls may remove closures from the region
@@ -1747,5 +1799,9 @@ class InlinedFn(Fn):
                 new_blocks[i] = dict(b.blocks[i], t=dict(t, callee=s_[2], resolved=s_[2], rkind="item", devirt=True))
         if new_blocks is not None:
             mir = dict(self.j["mir"], blocks=new_blocks)
+            tmp = Body(self, mir)
+            live = tmp.live_blocks()
+            # arms that can no longer be taken are emptied, so that scans over all blocks do not see them
+            mir["blocks"] = [blk if i in live else {"s": [], "t": {"k": "unreachable"}, "cleanup": blk.get("cleanup"), "dead": True} for i, blk in enumerate(new_blocks)]
             self.j["mir"] = mir
             self._body = Body(self, mir)
